@@ -20,7 +20,7 @@ CORPUS = [
 
 
 def gen_seq(rng):
-    n = rng.randint(1, 12)
+    n = rng.randint(1, 12) if rng.random() < 0.9 else rng.randint(30, 80)     # a lexer state may well have > 32 classes
     mode = rng.random()
     if mode < 0.5:
         hi = rng.choice([12, 30, 80])
